@@ -34,7 +34,8 @@ type Op struct {
 	Slot     int             `json:"slot,omitempty"`   // 1+slot: detect/lookup publish into it, use reads it
 	Shared   int             `json:"shared,omitempty"` // 1+index of a shared input buffer
 	Arr      int             `json:"arr,omitempty"`    // readarr: array index
-	Wrap     string          `json:"wrap,omitempty"`   // reader: "", wt, bytes
+	Wrap     string          `json:"wrap,omitempty"`   // reader: "", wt, bytes, seek, len
+	Reuse    bool            `json:"reuse,omitempty"`  // detect: the caller reuses one buffer (same address) for successive inputs
 }
 
 func (o Op) String() string {
@@ -111,6 +112,9 @@ type opCtx struct {
 	in  []byte
 }
 
+// arenas holds one reusable caller buffer per task (task-owned).
+type arena struct{ buf []byte }
+
 type slot struct {
 	mu   stdsync.Mutex
 	m    *mimetype.MIME
@@ -127,6 +131,7 @@ type World struct {
 	Arrays  [][]string
 	Res     [][]OpRes
 	slots   []slot
+	arenas  []arena
 	RealDir string
 	PreExts []*model.Ext
 	// PreSkipped: preliminary Extend calls whose parent Lookup returned nil.
@@ -198,6 +203,7 @@ func Materialise(p *Plan, realDir string) *World {
 	}
 	w.Bytes = make([][][]byte, len(p.Tasks))
 	w.Res = make([][]OpRes, len(p.Tasks))
+	w.arenas = make([]arena, len(p.Tasks))
 	for ti, ops := range p.Tasks {
 		w.Bytes[ti] = make([][]byte, len(ops))
 		w.Res[ti] = make([]OpRes, len(ops))
@@ -412,7 +418,17 @@ func (w *World) Exec(t *core.Task, ti, oi int) {
 	switch op.Kind {
 	case "detect":
 		buf := x
-		if op.Shared == 0 {
+		switch {
+		case op.Shared != 0:
+		case op.Reuse:
+			// a caller that reads successive inputs into one buffer: same address, new content
+			a := &w.arenas[ti]
+			if cap(a.buf) < len(x)+64 {
+				a.buf = make([]byte, 0, len(x)+4096)
+			}
+			buf = a.buf[:len(x)]
+			copy(buf, x)
+		default:
 			buf = withCanary(x)
 		}
 		t.OpInvoke(oi, tag)
@@ -420,7 +436,11 @@ func (w *World) Exec(t *core.Task, ti, oi int) {
 		t.OpReturn(oi)
 		res.R = lib.Observe(m)
 		res.SelfIs = m != nil && m.Is(m.String())
-		if op.Shared == 0 {
+		switch {
+		case op.Shared != 0:
+		case op.Reuse:
+			res.BufChanged = !bytes.Equal(buf, x)
+		default:
 			res.BufChanged = !canaryIntact(buf, x)
 		}
 		w.publish(op, m, res, ti, oi)
